@@ -302,7 +302,7 @@ class BitField(RawField):
         # other attributes are as usual...
 
     def unpack(self, data, offset=0, psize=0):
-        value = super().unpack(data,offset)
+        value = super().unpack(data,offset,psize)
         D = {}
         l = 0
         for name,sz in zip(self.subnames,self.subsizes):
@@ -366,7 +366,7 @@ class BitFieldEx(Field):
         # other attributes are as usual...
 
     def unpack(self, data, offset=0, psize=0):
-        value = super().unpack(data,offset)
+        value = super().unpack(data,offset,psize)
         D = {}
         l = 0
         for name,sz in zip(self.subnames,self.subsizes):
